@@ -14,7 +14,7 @@ from .q import call_name
 TOP = "TOP"  # not shift-equivariant / unknown
 POLY = "POLY"  # fixed point of the shift (+-inf) or empty: compatible with any degree
 
-ELEMENTWISE_SAME = {"array", "asarray", "cumsum", "copy", "sort", "concatenate", "flip", "atleast_1d", "squeeze", "ravel", "float", "max", "min", "amax", "amin", "nanmax", "nanmin", "logsumexp", "median", "mean"}
+ELEMENTWISE_SAME = {"array", "asarray", "cumsum", "copy", "sort", "concatenate", "append", "flip", "atleast_1d", "squeeze", "ravel", "float", "max", "min", "amax", "amin", "nanmax", "nanmin", "logsumexp", "median", "mean"}
 DEG0_RESULT = {"ones_like", "zeros_like", "zeros", "ones", "arange", "empty", "len", "isfinite", "isnan", "any", "all", "size", "int", "range", "linspace", "full", "sqrt_n"}
 NEEDS0 = {"exp", "log", "log1p", "log2", "expm1", "sqrt"}
 
@@ -133,12 +133,17 @@ class DegChecker:
     def call(self, e, env):
         name = call_name(e) or ""
         short = name.split(".")[-1]
-        args = [self.deg(a, env) for a in e.args]
+        from .q import norm_args as _norm_args
+
+        pos_args = _norm_args(e)
+        n_moved = len(pos_args) - len(e.args)
+        args = [self.deg(a, env) for a in pos_args]
+        moved_kw = {id(a) for a in pos_args[len(e.args):]}
         is_method = isinstance(e.func, ast.Attribute) and not (isinstance(e.func.value, ast.Name) and e.func.value.id in ("np", "numpy", "math", "torch", "scipy", "special", "rfn"))
         if is_method and e.func.attr in ("copy", "lower", "flatten", "ravel", "squeeze", "sum", "cumsum", "max", "min", "mean", "astype", "view", "tolist"):
             return self.deg(e.func.value, env)
         for k in e.keywords:
-            if k.arg not in ("dtype",):
+            if k.arg not in ("dtype",) and id(k.value) not in moved_kw:
                 self.deg(k.value, env)
         if short in NEEDS0 and name.split(".")[0] in ("np", "numpy", "math", "torch"):
             d = args[0] if args else POLY
@@ -153,6 +158,13 @@ class DegChecker:
             d = join(args[0], args[1]) if len(args) == 2 else TOP
             if d == TOP and TOP not in args:
                 self.report(e, f"`{src(e)}` combines values of different shift degrees {[str(a) for a in args]}")
+            return d
+        if short in ("append",) or (short == "concatenate" and e.args and isinstance(e.args[0], (ast.List, ast.Tuple))):
+            # joins: every piece has the degree of the whole
+            pieces = [self.deg(x, env) for x in e.args[0].elts] if short == "concatenate" else list(args[:2])
+            d = POLY
+            for x in pieces:
+                d = join(d, x)
             return d
         if short in ELEMENTWISE_SAME:
             return args[0] if args else POLY
